@@ -325,6 +325,9 @@ def run_C15(tier, seed):
     res.append(stages.codec_trace_stage("C15", tier, seed))
     # every proof the prover can output: length formula, decode(encode(p)) == p, encode(decode(b)) == b
     res.append(stages.api_stage("C15", "roundtrip", tier, seed))
+    # the scalar slots, value by value: the family a limb-wise comparison with the group order can get wrong, and pairs of slots
+    res.append(stages.cases_stage("C15", "MC_Scalar", tier, seed, invariants="Canonical", consts="LastLimbOr = FALSE",
+                                  negative=("LastLimbOr = TRUE", "Canonical")))
     return res
 
 
